@@ -38,6 +38,7 @@ pub static BUILTIN_FUNCTION_NAMES: LazyLock<Vec<&'static str>> =
 #[derive(
     Debug, Clone, Copy, PartialEq, Eq, Hash, PartialOrd, Ord, serde::Serialize, serde::Deserialize,
 )]
+#[cfg_attr(feature = "verif-hooks", repr(u64))] // verif hook: word-sized direct tag (layout only)
 pub enum BuiltInFunction {
     // Math functions
     Sqrt,
@@ -134,6 +135,7 @@ pub enum BuiltInFunction {
 }
 
 #[derive(Debug, Clone)]
+#[cfg_attr(feature = "verif-hooks", repr(u64))] // verif hook: word-sized direct tag (layout only)
 pub enum FunctionDef {
     BuiltIn(BuiltInFunction),
     Lambda(LambdaDef),
